@@ -535,6 +535,11 @@ func (s *inProcessServerStream) finish(err error) {
 	}
 	s.trailers = nil
 
+	if err == io.EOF {
+		// the client treats io.EOF as the successful end of the stream, so a
+		// handler that fails with io.EOF must not be passed along as is
+		err = status.Error(codes.Unknown, err.Error())
+	}
 	if err != nil {
 		_ = writeMessage(s.ctx, nil, s.responses, frame{err: err})
 	}
